@@ -19,7 +19,7 @@ Init == tid = 0 /\ l = 0 /\ TInit(DummyCfg)
 Pick == /\ tid = 0
         /\ \E t \in 1..Len(Traces) : tid' = t /\ l' = 1 /\ TReset(Traces[t].cfg)
 
-Skipped(e) == Focus = "stop" /\ e.ev \in {"MakeBatches", "ValBatches", "TrainStep"}   \* projection on the stop events
+Skipped(e) == Focus = "stop" /\ e.ev \in {"MakeBatches", "ValBatches"}   \* projection on the stop events
 GuardsOf(e) == CASE Skipped(e)           -> <<>>
                  [] e.ev = "StopCheck"   -> StopCheckGuards(e)
                  [] e.ev = "MakeBatches" -> MakeBatchesGuards(e)
